@@ -38,12 +38,31 @@ class Site:
         self.fn, self.block, self.kind, self.ops, self.line, self.what, self.term, self.pv = fn, block, kind, ops, line, what, term, pv
 
     @property
+    def owner(self):
+        """the named function this site belongs to (closures report under the function defining them)"""
+        f = self.fn
+        n = 0
+        while f.is_closure and f.parent in f.facts.fns and n < 8:
+            f = f.facts.fns[f.parent]
+            n += 1
+        return f
+
+    @property
     def sig(self):
-        return "%s(%s)" % (self.what, ", ".join(show(o, self.fn) for o in self.ops))
+        ops = self.ops
+        f = self.fn
+        n = 0
+        # inside a closure, captured variables are what they are in the enclosing function
+        while f.is_closure and f.parent in f.facts.fns and n < 4:
+            from riolib.prov import resolve_captures
+            ops = [resolve_captures(o, f) for o in ops]
+            f = f.facts.fns[f.parent]
+            n += 1
+        return "%s(%s)" % (self.what, ", ".join(show(o, f) for o in ops))
 
     @property
     def key(self):
-        return "%s:%s:%s" % (self.fn.key, self.kind, self.sig)
+        return "%s:%s:%s" % (self.owner.key, self.kind, self.sig)
 
 
 def panic_sites(F):
@@ -951,14 +970,14 @@ EXCEPTIONS = [
     ("api::explain_request::ExplainRequestOutput::create_result", "unwrap", "str::from_utf8", "the probe body is an ASCII literal and every inserted value is a Rust String: the filtered bytes are valid UTF-8"),
     ("api::impact::ImpactOutput::compute_impacts", "unwrap", "str::from_utf8", "the probe body is an ASCII literal and every inserted value is a Rust String: the filtered bytes are valid UTF-8"),
     ("callback_log::redirectionio_log_init_stderr", "unwrap", "", "depends on logger-initialisation history (documented: call once), not on input"),
-    ("callback_log::redirectionio_log_init_with_callback::{closure#0}", "unwrap", "", "runs once under Once; depends on logger-initialisation history, not on input"),
-    ("router::Router::cache", "sub", "Sub(phi(cast(SchemeMatcher::cache", "i64 budget: executed only while prev_cache_limit > 0, subtrahend is a u8 cast"),
+    ("callback_log::redirectionio_log_init_with_callback", "unwrap", "", "runs once under Once; depends on logger-initialisation history, not on input"),
+    ("router::Router::cache", "sub", "cast(Route::compile(", "i64 budget: executed only while prev_cache_limit > 0, subtrahend is a u8 cast"),
 ]
 
 
 def find_exception(site):
     for fk, kind, sub, reason in EXCEPTIONS:
-        if site.fn.key == fk and site.kind == kind and sub in site.sig:
+        if site.owner.key == fk and site.kind == kind and sub in site.sig:
             return reason
     return None
 
